@@ -2301,7 +2301,12 @@ _dbus_read_credentials_socket  (DBusSocket       client_fd,
     else
       {
         pid_read = cr.pid;
-        uid_read = cr.uid;
+        /* For a socket without peer credentials (TCP, for instance) Linux
+         * reports uid -1, as a 32-bit uid_t: that is "no uid", not uid
+         * 4294967295, and it does not compare equal to the wider
+         * DBUS_UID_UNSET. */
+        if (cr.uid != (uid_t) -1)
+          uid_read = cr.uid;
 #ifdef __linux__
         /* Do other platforms have cr.gid? (Not that it really matters,
          * because the gid is useless to us unless we know the complete
